@@ -7,11 +7,13 @@ package server
 
 func init() {
 	vfHarnesses["C20_lockqueue"] = vfH_C20_lockqueue
+	vfHarnesses["C20_lockqueue7"] = vfH_C20_lockqueue7
 }
 
-const vfC20Ops = 6
+func vfH_C20_lockqueue()  { vfC20LockQueue(6) }
+func vfH_C20_lockqueue7() { vfC20LockQueue(7) }
 
-func vfH_C20_lockqueue() {
+func vfC20LockQueue(nops int) {
 	base := int32(vfRange("base", 1, 2))
 	nodes := int32(vfRange("nodes", 1, 3))
 	size := int32(vfRange("size", 1, 2))
@@ -23,7 +25,6 @@ func vfH_C20_lockqueue() {
 	}
 	var model []*Lock
 	next := 0
-	nops := vfC20Ops
 	for step := 0; step < nops; step++ {
 		op := vfChoice(vfName("op", step), 8)
 		switch op {
